@@ -140,7 +140,7 @@ fn solve(fam: FamId, keys: &[Secret], seq: u64, op: &Op, target: usize, with_bas
             if crate::exec::decoded_init_bytes(fam, &keys[0].0, seq, &pairs).len() > 300 {
                 return None;
             }
-            return Some(History { fam, keys: keys.to_vec(), init: Init::Decoded { seq, pairs }, ops: vec![op.clone()], fault_at: None });
+            return Some(History { fam, keys: keys.to_vec(), init: Init::Decoded { seq, pairs }, ops: vec![op.clone()], fault_at: None, alt_keys: vec![] });
         }
         len += target as isize - n as isize;
     }
@@ -159,7 +159,7 @@ fn solve_builder(fam: FamId, keys: &[Secret], seq: u64, target: usize) -> Option
         let _ = model::expect_build(&cx, &calls);
         let n = model::last_model_size();
         if n == target {
-            return Some(History { fam, keys: keys.to_vec(), init: Init::Builder { calls }, ops: vec![], fault_at: None });
+            return Some(History { fam, keys: keys.to_vec(), init: Init::Builder { calls }, ops: vec![], fault_at: None, alt_keys: vec![] });
         }
         len += target as isize - n as isize;
     }
@@ -211,7 +211,7 @@ impl Property for C09 {
                         for wb in [false, true] {
                             match solve(fam, &keys2, s, &op, n, wb) {
                                 Some(h) => v.push(Case::Hist(h)),
-                                None => v.push(Case::Hist(History { fam, keys: vec![], init: Init::Builder { calls: vec![] }, ops: vec![], fault_at: None })),
+                                None => v.push(Case::Hist(History { fam, keys: vec![], init: Init::Builder { calls: vec![] }, ops: vec![], fault_at: None, alt_keys: vec![] })),
                             }
                         }
                     }
@@ -229,7 +229,7 @@ impl Property for C09 {
         vec![("history", 10000)]
     }
     fn gen(&self, c: &mut Choices) -> Case {
-        Case::Hist(history::gen_history(c, None))
+        Case::Hist(history::gen_history_cross(c))
     }
     fn check(&self, case: &Case, st: &mut Stats) -> Result<(), String> {
         let h = match case {
